@@ -340,7 +340,8 @@ class Base(_BaseClass):
                 bracket += 1
             elif '{' == val:
                 brace += 1
-            elif '(' == val:
+            # function( or single (, as for the tokens that follow
+            elif '(' == val or Base._prods.FUNCTION == starttoken[0]:
                 parant += 1
 
         if tokenizer:
